@@ -419,13 +419,23 @@ def refit_case(case):
         P["E"].set(value=1.2 * E * kk ** (-p))
         return P
     ref = curve()
-    ref.fit_model(model_key=mk, params_initial=params(1.0), gcf_k=1.0,
-                  weight_cp=0)
     c = curve()
-    c.fit_model(model_key=mk, params_initial=params(kold), gcf_k=kold,
-                weight_cp=0)
+    if how.startswith("model-switch"):
+        # the curve was fitted with another model before; model and
+        # correction factor are then given in one call
+        other = "hertz_cone" if mk != "hertz_cone" else "hertz_para"
+        ref.fit_model(model_key=other, gcf_k=1.0, weight_cp=0)
+        ref.fit_model(model_key=mk, gcf_k=1.0)
+        c.fit_model(model_key=other, gcf_k=kold, weight_cp=0)
+    else:
+        ref.fit_model(model_key=mk, params_initial=params(1.0), gcf_k=1.0,
+                      weight_cp=0)
+        c.fit_model(model_key=mk, params_initial=params(kold), gcf_k=kold,
+                    weight_cp=0)
     try:
-        if how == "keyword":
+        if how == "model-switch":
+            c.fit_model(model_key=mk, gcf_k=k)
+        elif how == "keyword":
             c.fit_model(gcf_k=k)
         else:
             c.fit_properties["gcf_k"] = k
@@ -637,7 +647,7 @@ def cases(tier):
     for mk in POWER:
         for kold, k in ((1.0, 0.5), (0.5, 1.0), (1.0, 2.0), (0.5, 0.25),
                         (2.0, 0.6)):
-            for how in ("keyword", "edit"):
+            for how in ("keyword", "edit", "model-switch"):
                 cs.append({"kind": "grid", "mode": "refit", "model": mk,
                            "k": k, "k_old": kold, "how": how})
     # fit requests whose range holds too few points
